@@ -356,6 +356,48 @@ def estr(e):
 
 # --------------------------------------------------------------------------- shards
 
+def seq_pairings(ctx, rep):
+    """products and quotients of operands of DIFFERENT lengths (M x 1 and 1 x M, M = 2..4): element i is the reference product of the
+    i-th elements (the single value reused), for every class including the twists"""
+    c = rep.cname
+    G = [g for g in rep.gens if np.all(np.abs(np.asarray(g[1])) < 1e4)]
+    ops = [('mul', lambda a, b: a * b, False)] + ([('div', lambda a, b: a / b, True)] if hasdiv(rep) else [])
+    for M, off, (on, of, isdiv), shape in itertools.product((2, 3, 4), (0, 1), ops, ('M1', '1M')):
+        multi = [G[(off + 2 * j + 1) % len(G)] for j in range(M)]
+        single = G[(off + 3) % len(G)]
+        cid = 'C02/%s/seqpair/%s/M=%d/off=%d/%s' % (c, on, M, off, shape)
+        if not ctx.want(cid):
+            continue
+        ctx.case(cid, key=cid)
+        P = dict(cls=c, law='seqpair', m=M if shape == 'M1' else 1, n=1 if shape == 'M1' else M, op=on)
+        Xm = rep.C([np.array(v, dtype=float) for _, v in multi])
+        Xs = rep.make(single[1])
+        L, R = (Xm, Xs) if shape == 'M1' else (Xs, Xm)
+        r = lib(ctx, cid, c + '.' + on, P, of, L, R)
+        if r is None:
+            continue
+        if type(r) is not rep.C or len(r.data) != M:
+            ctx.fail(cid, c + '.' + on, 'mismatch', P, '%s of lengths %s gives %s with %d values' % (on, shape, type(r).__name__, len(getattr(r, 'data', []))))
+            continue
+        for i in range(M):
+            a_ = multi[i][1] if shape == 'M1' else single[1]
+            b_ = single[1] if shape == 'M1' else multi[i][1]
+            if isdiv:
+                one = lib(ctx, cid, c + '.inv', P, lambda x: x.inv(), rep.make(b_))
+                if one is None:
+                    continue
+                b_ = rep.val(one)
+            want = rep.ref_mul(np.asarray(a_, dtype=float), np.asarray(b_, dtype=float))
+            v = np.asarray(r.data[i], dtype=float)
+            if c.startswith('Twist'):
+                okk = np.all(np.isfinite(v)) and ref.maxdiff(rep.motion(v), want) <= rep.tol * max(1.0, float(np.linalg.norm(want[:-1, -1])))
+            else:
+                okk, _ = rep.same(v, want, rep.scale(v, want))
+            if not okk:
+                ctx.fail(cid, c + '.' + on, 'mismatch', dict(P, i=i), 'element %d of the %s %s differs from the reference' % (i, shape, on))
+                break
+
+
 def chain_laws(ctx, rep):
     """accumulation: n steps forward with a generator and n steps back return to the start; n right-multiplications equal
     the integer power of the reference (n = 10, 100, 1000), with the binary, the in-place and the inverse forms"""
@@ -492,6 +534,7 @@ def run_shard(ctx, shard):
         bfs(ctx, rep, k, K)
     elif kind == 'seq':
         seq_laws(ctx, rep)
+        seq_pairings(ctx, rep)
     elif kind == 'chain':
         chain_laws(ctx, rep)
 
